@@ -47,12 +47,16 @@ def run_case(case):
             return Outcome(Violation("C14:setup-exception:%s" % type(e).__name__, "creating metafiles raised %r" % (e,)), False)
         dest = rb.make_dest(scr, case)
         assigned = {}     # rel path under dest -> (length, basename)
+        real_digest = {}  # rel path under dest -> digest of the bytes the metafile describes there
         pre = False
         for mf, tor in zip(layout["metafiles"], case["torrents"]):
             m = vmeta.Meta.from_file(mf)
             for rel, ln in rb.listed_files(m):
                 assigned[os.path.normpath(rel)] = (ln, os.path.basename(rel))
             tree = tor["tree"]
+            for f in tree["files"]:
+                rel0 = tree["name"] if tree["single"] else os.path.join(tree["name"], *f["path"])
+                real_digest[os.path.normpath(rel0)] = _sha(sandbox.file_bytes(f))
             for f, e in zip(tree["files"], tor["files"]):
                 if e["pre"] == "none":
                     continue
@@ -163,7 +167,8 @@ def run_case(case):
                 _, size, digest, _ = after[rel]
                 if size != ln:
                     return Outcome(Violation("C14:placed-wrong-length", "placed %s with %d bytes, recorded length %d" % (rel, size, ln)), True, sorted(cls))
-                if (base, digest) in decoy_digests:
+                # (a decoy of one file may coincide with the real bytes of another same-named file - 1-byte files: that is a correct copy)
+                if (base, digest) in decoy_digests and digest != real_digest.get(nrel):
                     return Outcome(Violation("C14:placed-decoy", "placed the every-byte-different decoy as %s" % rel), True, sorted(cls))
                 if digest not in avail.get(base, set()):
                     return Outcome(Violation("C14:placed-not-a-copy", "%s is not a byte-identical copy of any search-directory file named %s" % (rel, base)), True, sorted(cls))
